@@ -210,6 +210,19 @@ theorem generated_percentile_rows :
       (2 ≤ r.lo → (r.pcts.map Prod.fst).head? = some 50) ∧ (r.pcts.map Prod.snd).Nodup := by
   decide +kernel
 
+/-- the ladder itself, pinned: one more tail percentile from every power of ten on (1, 2, 10, 100, 1000, 10000) —
+    race files of different races are compared key by key, so the thresholds are part of the stored format -/
+theorem generated_percentile_ladder :
+    RallyGen.Percentiles.table.map (fun r => (r.lo, r.pcts.map Prod.snd)) =
+      [(1, [['1', '0', '0', '_', '0']]),
+       (2, [['5', '0', '_', '0'], ['1', '0', '0', '_', '0']]),
+       (10, [['5', '0', '_', '0'], ['9', '0', '_', '0'], ['1', '0', '0', '_', '0']]),
+       (100, [['5', '0', '_', '0'], ['9', '0', '_', '0'], ['9', '9', '_', '0'], ['1', '0', '0', '_', '0']]),
+       (1000, [['5', '0', '_', '0'], ['9', '0', '_', '0'], ['9', '9', '_', '0'], ['9', '9', '_', '9'], ['1', '0', '0', '_', '0']]),
+       (10000, [['5', '0', '_', '0'], ['9', '0', '_', '0'], ['9', '9', '_', '0'], ['9', '9', '_', '9'], ['9', '9', '_', '9', '9'],
+         ['1', '0', '0', '_', '0']])] := by
+  decide +kernel
+
 /-- **percentile_set_depends_on_count_only**: the keys `single_latency` reports are exactly the table row of the
     sample count; two value lists of equal length get the same keys, whatever the values -/
 theorem percentile_set_depends_on_count_only (tbl : PTable) (vs vs' : List Rat) (u u' : Option Str) (l l' : Latency)
@@ -327,6 +340,35 @@ theorem lookup_unique (rs : List Dict) (ks : List Str)
     (hk : List.Forall₂ (fun r k => recKeyE r = .ok (.str k)) rs ks) (hnd : ks.Nodup) (r : Dict) (k : Str)
     (hmem : (r, k) ∈ rs.zip ks) : metricsE rs k = .ok (some r) := metricsE_unique hk hnd hmem
 
+/-! ## 7c. one store object over time: deliveries (`put_value_*`, `bulk_add`), hand-overs and queries in any order -/
+
+/-- **store_is_what_was_delivered**: after any history on one store object the document list is exactly what was
+    delivered (by `_add` or `bulk_add`, in order) since the last clearing `to_externalizable(clear=True)` —
+    queries and non-clearing hand-overs in between leave no trace -/
+theorem store_is_what_was_delivered (h : List SEv) :
+    stateAfter [] h = delivered h ∧ delivered h = delivered (h.filter (fun e => !e.readOnly)) :=
+  ⟨stateAfter_eq_delivered h, delivered_filter h⟩
+
+/-- **query_is_function_of_delivered**: in every history, the answer to a query is `evalQ` of the documents
+    delivered before it — in particular interim queries (`pre` may contain any, including interim
+    `calculate_results`) do not change it — and everything asked later is answered from `delivered pre` as well -/
+theorem query_is_function_of_delivered (tbl : PTable) (pre post : List SEv) (q : QKind) :
+    runHist tbl [] (pre ++ SEv.query q :: post) =
+      runHist tbl [] pre ++ evalQ tbl (delivered pre) q :: runHist tbl (delivered pre) post ∧
+    delivered pre = delivered (pre.filter (fun e => !e.readOnly)) := by
+  refine ⟨?_, delivered_filter pre⟩
+  rw [runHist_append, stateAfter_eq_delivered, runHist_cons]
+  rfl
+
+/-- **answers_depend_on_multiset**: statistics, mean, median, percentiles and error rate of two document lists that
+    are permutations of each other (e.g. the same samples delivered in other chunks / another order) coincide; for
+    `calculate_results` all numbers coincide (`OpMetrics.core`) -/
+theorem answers_depend_on_multiset (tbl : PTable) (docs docs' : List Rec) (hp : docs.Perm docs') :
+    (∀ k a a', k.orderFree = true → evalQ tbl docs k = .ok a → evalQ tbl docs' k = .ok a' → a = a') ∧
+    (∀ sched r r', calcE tbl docs sched = .ok r → calcE tbl docs' sched = .ok r' →
+      r.map OpMetrics.core = r'.map OpMetrics.core) :=
+  ⟨fun _ _ _ hk h h' => evalQ_perm hp hk h h', fun sched _ _ h h' => calcE_normal_only sched h h' (hp.filter _)⟩
+
 /-! ## 8. throughput summary -/
 
 /-- **summary_agrees_with_raw**: whenever normal samples exist, `summary_stats` reports min / mean / median / max
@@ -395,9 +437,9 @@ example : (errorRateE exRecs ['t'] (some ['b']) (some .normal)).toOption = some 
     (durationE [exRecs[0]] ['t']).toOption = some (some 536000) := by decide +kernel
 example : (exRecs.filter isNormal).length = 2 ∧ (exRecs.filter (errSel ['t'] (some ['b']) (some .normal))).length = 2 ∧
     (exRecs.filter (errFail ['t'] (some ['b']) (some .normal))).length = 1 := by decide +kernel
-example : (pctsFor RallyGen.Percentiles.table 1000).toOption.map (·.map Prod.snd) =
-    some [['5', '0', '_', '0'], ['9', '0', '_', '0'], ['9', '9', '_', '0'], ['9', '9', '_', '9'], ['1', '0', '0', '_', '0']] := by
-  decide +kernel
+example : delivered [.put exRecs[0], .query (.duration ['t']), .bulk [exRecs[1], exRecs[2]], .handover false (.duration ['t'])] = exRecs ∧
+    delivered [.put exRecs[0], .handover true (.duration ['t']), .bulk [exRecs[1]], .query (.duration ['t'])] = [exRecs[1]] := by
+  constructor <;> rfl
 /-- two tasks share the operation `term`; the explicitly named one comes first, the other keeps the default name -/
 example :
     let r1 : Dict := [(sTask, .str ['w']), (sOperation, .str ['t', 'e', 'r', 'm']), (sErrorRate, .flt 1)]
